@@ -343,6 +343,7 @@ func findScanner(c *Ctx, rule string, p *packages.Package) *scanner {
 	advObj := p.TypesInfo.Defs[s.advFn.Name]
 	// NextToken: the method that calls the transition function
 	var evalObj types.Object
+	_ = evalObj
 	AllFuncDecls(p, func(fd *ast.FuncDecl) {
 		if fd.Body == nil || fd.Recv == nil {
 			return
@@ -366,29 +367,29 @@ func findScanner(c *Ctx, rule string, p *packages.Package) *scanner {
 		c.Lost(rule, "the unique method calling the transition function (NextToken)")
 		return nil
 	}
-	// evalDFA: a method func(int) Token called from NextToken
-	ast.Inspect(s.nextFn.Body, func(n ast.Node) bool {
-		call, ok := n.(*ast.CallExpr)
-		if !ok {
-			return true
+	// evalDFA: the unique method func(int) Token of the scanner's receiver type
+	recv := recvName(s.nextFn.Recv.List[0].Type)
+	nEval := 0
+	AllFuncDecls(p, func(fd *ast.FuncDecl) {
+		if fd.Recv == nil || fd.Body == nil || recvName(fd.Recv.List[0].Type) != recv {
+			return
 		}
-		fn, _ := objOf(p.TypesInfo, call.Fun).(*types.Func)
-		if fn == nil || fn.Pkg() != p.Types {
-			return true
+		fn, _ := p.TypesInfo.Defs[fd.Name].(*types.Func)
+		if fn == nil {
+			return
 		}
 		sig := fn.Type().(*types.Signature)
 		if sig.Params().Len() == 1 && isInt(sig.Params().At(0).Type()) && sig.Results().Len() == 1 {
 			if _, n := namedTypeName(sig.Results().At(0).Type()); n == "Token" {
+				s.evalFn = fd
 				evalObj = fn
+				nEval++
 			}
 		}
-		return true
 	})
-	AllFuncDecls(p, func(fd *ast.FuncDecl) {
-		if evalObj != nil && p.TypesInfo.Defs[fd.Name] == evalObj {
-			s.evalFn = fd
-		}
-	})
+	if nEval != 1 {
+		s.evalFn = nil
+	}
 	if s.evalFn == nil {
 		c.Lost(rule, "the accepting-state evaluation method func(int) Token called from NextToken")
 		return nil
@@ -427,25 +428,63 @@ func findScanner(c *Ctx, rule string, p *packages.Package) *scanner {
 
 // ---------- the scan loop on SSA ----------
 
+type evalSite struct {
+	call     *ssa.Call     // the call in the scan function (evaluation method itself or a wrapper around it)
+	state    ssa.Value     // state argument at that call
+	outFn    *ssa.Function // function in which the outcome of the evaluation is decided
+	evalCall *ssa.Call     // the evaluation call inside outFn
+	context  string        // dead | eof | other
+}
+
 type scanLoop struct {
-	fn        *ssa.Function
-	adv       *ssa.Call
-	eval      *ssa.Call
-	curr      *ssa.Phi
-	nextCall  ssa.CallInstruction
-	nextErr   ssa.Value
-	retract   []ssa.CallInstruction
-	errTerms  []string
-	skipTerms []string
+	fn          *ssa.Function
+	adv         *ssa.Call
+	curr        *ssa.Phi
+	nextCall    ssa.CallInstruction
+	nextErr     ssa.Value
+	retract     []ssa.CallInstruction
+	sites       []*evalSite
+	errTerms    []string
+	skipTerms   []string
 	defaultKind string // what happens for every other terminal: token | error | skip | mixed
-	ok        bool
+	eofPending  bool   // an evaluation site exists on the end-of-input path (pending lexeme is not lost)
+	ok          bool
+}
+
+// wrapperOf: is callee a function of the same package that passes one of its int parameters as the state of the
+// evaluation method? Returns the parameter index and the inner call.
+func wrapperOf(callee *ssa.Function, evalObj types.Object) (int, *ssa.Call) {
+	if callee == nil || len(callee.Blocks) == 0 {
+		return -1, nil
+	}
+	var inner *ssa.Call
+	idx := -1
+	allCalls(callee, func(call ssa.CallInstruction) {
+		cv, ok := call.(*ssa.Call)
+		if !ok {
+			return
+		}
+		if f := calleeFunc(call); f == nil || types.Object(f) != evalObj {
+			return
+		}
+		arg := cv.Call.Args[len(cv.Call.Args)-1]
+		for i, p := range callee.Params {
+			if ssa.Value(p) == arg {
+				idx, inner = i, cv
+			}
+		}
+	})
+	return idx, inner
 }
 
 func analyseScanLoop(c *Ctx, rule string, fn *ssa.Function, advObj, evalObj types.Object, errorState int64) *scanLoop {
 	sl := &scanLoop{fn: fn}
 	pos := fn.Pos()
-	var advs, evals []*ssa.Call
+	var advs []*ssa.Call
 	allCalls(fn, func(call ssa.CallInstruction) {
+		if methodNameOf(call) == "Retract" {
+			sl.retract = append(sl.retract, call)
+		}
 		cv, ok := call.(*ssa.Call)
 		if !ok {
 			return
@@ -455,11 +494,13 @@ func analyseScanLoop(c *Ctx, rule string, fn *ssa.Function, advObj, evalObj type
 			advs = append(advs, cv)
 		}
 		if f != nil && types.Object(f) == evalObj {
-			evals = append(evals, cv)
+			sl.sites = append(sl.sites, &evalSite{call: cv, state: cv.Call.Args[len(cv.Call.Args)-1], outFn: fn, evalCall: cv})
+			return
 		}
-		switch methodNameOf(call) {
-		case "Retract":
-			sl.retract = append(sl.retract, call)
+		if callee := cv.Call.StaticCallee(); callee != nil && callee != fn && callee.Pkg == fn.Pkg {
+			if pi, inner := wrapperOf(callee, evalObj); inner != nil {
+				sl.sites = append(sl.sites, &evalSite{call: cv, state: cv.Call.Args[pi], outFn: callee, evalCall: inner})
+			}
 		}
 	})
 	if !c.Check(rule, "scan loop: one transition call", pos, len(advs) == 1, fmt.Sprintf("%d calls of the transition function in the scan loop", len(advs))) {
@@ -506,60 +547,98 @@ func analyseScanLoop(c *Ctx, rule string, fn *ssa.Function, advObj, evalObj type
 	}
 	c.Check(rule, "scan loop: the read error is tested before the rune is used", sl.adv.Pos(), sl.nextErr != nil && controlledNil(sl.adv.Block(), sl.nextErr, false),
 		"the transition function runs on a path where Next()'s error was not tested to be nil")
-	// dead test
-	if !c.Check(rule, "scan loop: one evaluation call", pos, len(evals) == 1, fmt.Sprintf("%d calls of the evaluation method", len(evals))) {
+
+	if !c.Check(rule, "scan loop: the evaluation method is called", pos, len(sl.sites) >= 1, "no call of the evaluation method (directly or through a wrapper)") {
 		return sl
 	}
-	sl.eval = evals[0]
-	evalArg := sl.eval.Call.Args[len(sl.eval.Call.Args)-1]
-	c.Check(rule, "scan loop: evaluation only on a dead transition", sl.eval.Pos(), controlledByEq(sl.eval.Block(), sl.adv, errorState),
-		fmt.Sprintf("the evaluation is not guarded by next == %d (the transition function's dead state)", errorState))
-	c.Check(rule, "scan loop: the state evaluated is the one before the failing transition", sl.eval.Pos(), evalArg == ssa.Value(sl.curr),
-		"the evaluation method does not receive the loop-carried current state")
-	// retract exactly once before evaluation
-	okR := len(sl.retract) == 1
-	if okR {
-		r := sl.retract[0]
-		okR = controlledByEq(r.Block(), sl.adv, errorState) &&
-			((r.Block() == sl.eval.Block() && instrIndex(r.(ssa.Instruction)) < instrIndex(sl.eval)) || r.Block().Dominates(sl.eval.Block()))
+	nDead := 0
+	for _, st := range sl.sites {
+		b := st.call.Block()
+		switch {
+		case controlledByEq(b, sl.adv, errorState):
+			st.context = "dead"
+			nDead++
+		case sl.nextErr != nil && controlledNil(b, sl.nextErr, true):
+			st.context = "eof"
+			sl.eofPending = true
+		default:
+			st.context = "other"
+		}
+		key := "evaluation on " + st.context + " path"
+		c.Check(rule, "scan loop: "+key+": the state evaluated is the one before the failing step", st.call.Pos(), st.state == ssa.Value(sl.curr),
+			"the evaluation does not receive the loop-carried current state")
+		// retracts dominating this site
+		nR := 0
+		for _, r := range sl.retract {
+			rb := r.Block()
+			if (rb == b && instrIndex(r.(ssa.Instruction)) < instrIndex(st.call)) || (rb != b && rb.Dominates(b)) {
+				nR++
+			}
+		}
+		switch st.context {
+		case "dead":
+			c.Check(rule, "scan loop: "+key+": exactly one Retract precedes the evaluation", st.call.Pos(), nR == 1,
+				fmt.Sprintf("%d Retract calls dominate the evaluation on the dead-transition path (the rune that did not belong to the token must be given back exactly once)", nR))
+		case "eof":
+			c.Check(rule, "scan loop: "+key+": nothing is retracted (no rune was read)", st.call.Pos(), nR == 0,
+				"a Retract precedes the evaluation although Next() failed: a rune of the pending lexeme would be given back")
+		default:
+			c.Fail(rule, "scan loop: evaluation happens only on a dead transition or at end of input", st.call.Pos(),
+				fmt.Sprintf("the evaluation is guarded neither by next == %d nor by the read error", errorState))
+		}
 	}
-	c.Check(rule, "scan loop: exactly one Retract, on the dead transition, before the evaluation", sl.eval.Pos(), okR,
-		fmt.Sprintf("%d Retract calls, or not dominated by the dead-transition test, or after the evaluation", len(sl.retract)))
+	c.Check(rule, "scan loop: exactly one evaluation site on the dead-transition path", pos, nDead == 1, fmt.Sprintf("%d evaluation sites guarded by next == %d", nDead, errorState))
+	for _, r := range sl.retract {
+		c.Check(rule, "scan loop: Retract only on a dead transition", r.Pos(), controlledByEq(r.Block(), sl.adv, errorState), "a Retract that is not guarded by the dead-transition test")
+	}
 
-	// classification of terminals after evaluation
-	classifyAfterEval(c, rule, sl)
+	// outcomes: per distinct function deciding them
+	done := map[*ssa.Function]bool{}
+	for _, st := range sl.sites {
+		if st.outFn != fn {
+			// the wrapper's results must be returned unchanged by the scan function
+			passes := false
+			for _, r := range *st.call.Referrers() {
+				if ex, ok := r.(*ssa.Extract); ok {
+					for _, rr := range *ex.Referrers() {
+						if _, ok := rr.(*ssa.Return); ok {
+							passes = true
+						}
+					}
+				}
+			}
+			c.Check(rule, "scan loop: the wrapper's result is returned unchanged", st.call.Pos(), passes, "the scan function does not return the evaluation wrapper's results")
+		}
+		if done[st.outFn] {
+			continue
+		}
+		done[st.outFn] = true
+		classifyAfterEval(c, rule, sl, st)
+	}
 	sl.ok = true
 	return sl
 }
 
 // classifyAfterEval walks the comparison chain on the evaluated token's Terminal.
-func classifyAfterEval(c *Ctx, rule string, sl *scanLoop) {
-	fn := sl.fn
+func classifyAfterEval(c *Ctx, rule string, sl *scanLoop, st *evalSite) {
+	fn := st.outFn
+	eval := st.evalCall
 	isTerm := func(v ssa.Value) bool {
 		for _, r := range rootsOf(fn, v, nil) {
 			if fa, ok := r.(*ssa.FieldAddr); ok && fieldName(fa) == "Terminal" {
-				for _, rr := range rootsOf(fn, fa.X, func(v ssa.Value) bool { return v == ssa.Value(sl.eval) }) {
-					if rr == ssa.Value(sl.eval) {
-						return true
-					}
-				}
-				// local token variable holding the eval result
 				if a, ok := fa.X.(*ssa.Alloc); ok {
 					for _, ref := range *a.Referrers() {
-						if st, ok := ref.(*ssa.Store); ok && st.Addr == a && st.Val == ssa.Value(sl.eval) {
+						if s2, ok := ref.(*ssa.Store); ok && s2.Addr == a && s2.Val == ssa.Value(eval) {
 							return true
 						}
 					}
 				}
 			}
-			if f, ok := r.(*ssa.Field); ok && f.X == ssa.Value(sl.eval) {
+			if f, ok := r.(*ssa.Field); ok && f.X == ssa.Value(eval) {
 				return true
 			}
 		}
 		return false
-	}
-	type res struct {
-		kind string
 	}
 	kinds := map[string]string{} // terminal const -> kind
 	defKinds := map[string]bool{}
@@ -572,16 +651,15 @@ func classifyAfterEval(c *Ctx, rule string, sl *scanLoop) {
 				return "other"
 			}
 			if isNilConst(v.Results[1]) {
-				// token result must derive from the eval call
-				for _, r := range rootsOf(fn, v.Results[0], func(x ssa.Value) bool { return x == ssa.Value(sl.eval) }) {
-					if r == ssa.Value(sl.eval) {
+				for _, r := range rootsOf(fn, v.Results[0], func(x ssa.Value) bool { return x == ssa.Value(eval) }) {
+					if r == ssa.Value(eval) {
 						return "token"
 					}
 				}
 				return "other"
 			}
 			if ex, ok := v.Results[1].(*ssa.Extract); ok {
-				if call, ok := ex.Tuple.(*ssa.Call); ok && call.Call.StaticCallee() == fn {
+				if call, ok := ex.Tuple.(*ssa.Call); ok && call.Call.StaticCallee() == sl.fn {
 					return "skip"
 				}
 			}
@@ -589,7 +667,7 @@ func classifyAfterEval(c *Ctx, rule string, sl *scanLoop) {
 		case *ssa.Jump:
 			// back to the loop header with the state reset to 0
 			t := b.Succs[0]
-			if t == sl.curr.Block() {
+			if fn == sl.fn && t == sl.curr.Block() {
 				for i, p := range t.Preds {
 					if p == b && isConstInt(sl.curr.Edges[i], 0) {
 						return "skip"
@@ -640,7 +718,7 @@ func classifyAfterEval(c *Ctx, rule string, sl *scanLoop) {
 			defKinds["other"] = true
 			return
 		}
-		if _, ok := last.(*ssa.Jump); ok && b.Succs[0] != sl.curr.Block() {
+		if _, ok := last.(*ssa.Jump); ok && !(fn == sl.fn && b.Succs[0] == sl.curr.Block()) {
 			walk(b.Succs[0], eq, neq, depth+1)
 			return
 		}
@@ -655,7 +733,7 @@ func classifyAfterEval(c *Ctx, rule string, sl *scanLoop) {
 			defKinds[k] = true
 		}
 	}
-	walk(sl.eval.Block(), "", map[string]bool{}, 0)
+	walk(eval.Block(), "", map[string]bool{}, 0)
 	for t, k := range kinds {
 		switch k {
 		case "error":
@@ -664,7 +742,7 @@ func classifyAfterEval(c *Ctx, rule string, sl *scanLoop) {
 			sl.skipTerms = append(sl.skipTerms, t)
 		case "token":
 		default:
-			c.Fail(rule, "scan loop: outcome for terminal "+t, sl.eval.Pos(), "after evaluation, terminal "+t+" leads to an outcome the analysis cannot classify ("+k+")")
+			c.Fail(rule, "scan loop: outcome for terminal "+t, eval.Pos(), "after evaluation, terminal "+t+" leads to an outcome the analysis cannot classify ("+k+")")
 		}
 	}
 	sort.Strings(sl.errTerms)
@@ -679,7 +757,7 @@ func classifyAfterEval(c *Ctx, rule string, sl *scanLoop) {
 	} else {
 		sl.defaultKind = "mixed"
 	}
-	c.Check(rule, "scan loop: every other terminal is returned as the token with a nil error", sl.eval.Pos(), sl.defaultKind == "token",
+	c.Check(rule, "scan loop: every other terminal is returned as the token with a nil error", eval.Pos(), sl.defaultKind == "token",
 		fmt.Sprintf("the default outcome after evaluation is %v", dk))
 }
 
